@@ -217,12 +217,17 @@ def toInt64 : F64 → Int
     if t ≥ two63 ∨ t < -two63 then -two63 else t
   | _ => -two63
 
-/-- `math.Pow10(n)` -/
+/-- `math.Pow10(n)` as go1.23.5 writes it (`math/pow10.go`): the rounded product
+    `pow10postab32[n/32] * pow10tab[n%32]` for `0 ≤ n ≤ 308`, the rounded quotient
+    `pow10negtab32[-n/32] / pow10tab[-n%32]` for `-323 ≤ n ≤ 0` — the table entries are the literals
+    `1e<k>`, `1e-<k>`, which the compiler rounds correctly. It is *not* the double nearest to `10^n` at
+    169 of these scales (the nearest to zero are 33 and −23). -/
 def pow10 (n : Int) : F64 :=
-  if n < -323 then .fin false 0 minExp
-  else if n > 308 then .inf false
-  else if n ≥ 0 then roundPos false (10 ^ n.toNat) 1
-  else roundPos false 1 (10 ^ (-n).toNat)
+  if 0 ≤ n ∧ n ≤ 308 then
+    mul (roundPos false (10 ^ (32 * (n.toNat / 32))) 1) (roundPos false (10 ^ (n.toNat % 32)) 1)
+  else if -323 ≤ n ∧ n ≤ 0 then
+    div (roundPos false 1 (10 ^ (32 * ((-n).toNat / 32)))) (roundPos false (10 ^ ((-n).toNat % 32)) 1)
+  else if n > 0 then .inf false else .fin false 0 minExp
 
 def maxInt64F : F64 := ofInt (two63 - 1)   -- float64(math.MaxInt64) = 2^63
 def minInt64F : F64 := ofInt (-two63)
